@@ -212,6 +212,7 @@ pub fn compile(h: &History) -> DocSpec {
             size: next,
             root: Val::r(root),
             trailer: vec![("ID".into(), Val::Arr(vec![Val::Str(marker.clone()), Val::Str(marker)]))],
+            overrides: vec![],
         });
     }
     DocSpec { junk: h.junk.clone(), revisions }
@@ -319,6 +320,7 @@ fn kind_of(v: &Val) -> &'static str {
         Val::Arr(_) => "array",
         Val::Dict(_) => "dictionary",
         Val::Ref(..) => "reference",
+        Val::Raw(_) => "raw",
     }
 }
 
@@ -412,7 +414,7 @@ pub fn run_history(h: &History) -> Outcome {
                                         i,
                                         match s {
                                             Slot::Direct { gen, .. } => format!("direct(gen {})", gen),
-                                            Slot::Compressed { .. } => "compressed".to_string(),
+                                            Slot::Compressed { .. } | Slot::RawCompressed { .. } => "compressed".to_string(),
                                             Slot::Free { gen } => format!("free(gen {})", gen),
                                         }
                                     )
